@@ -27,8 +27,34 @@ QUICK_CLASSES = (["tiny", "small", "wide"], [0.6, 0.3, 0.1])
 THOROUGH_CLASSES = (["tiny", "small", "wide", "tall"], [0.45, 0.3, 0.15, 0.1])
 
 
+SWEEP_CHUNKS = 8
+
+
 def n_fixed(tier):
-    return 4
+    return 4 + SWEEP_CHUNKS
+
+
+def _size_sweep(tier):
+    """Every tile count 1..N once (as a near-square board and, for some, as a single row or column): sizes at
+    which a block, chunk or buffer of the writer happens to be exactly full are met by enumeration, not by luck.
+    Load and structure only."""
+    top = 260 if tier == "quick" else 900
+    chunks = [[] for _ in range(SWEEP_CHUNKS)]
+    for a in range(1, top + 1):
+        w_ = max(d for d in range(1, int(a ** 0.5) + 1) if a % d == 0)
+        shapes = [(w_, a // w_)]
+        if a % 3 == 0 and (3, a // 3) not in shapes:
+            shapes.append((a // 3, 3) if a % 2 else (3, a // 3))
+        if a % 7 == 1:
+            shapes.append((1, a) if a % 2 else (a, 1))
+        for (w, l) in shapes:
+            if w > 64 and l > 1:
+                continue
+            chunks[a % SWEEP_CHUNKS].append(
+                {"op": "gen_cli", "solve": False, "same_process": bool(a % 5 == 0),
+                 "params": {"seed": a, "width": w, "length": l, "max_reward": (6, 1, 64)[a % 3], "rb": 0.1, "lb": 0.2,
+                            "tb": 0.3, "lt": 0.3, "force_down": bool(a % 2)}})
+    return [{"cfg": {"klass": "size-sweep"}, "ops": c} for c in chunks]
 
 
 def fixed_specs(tier, ctx):
@@ -49,7 +75,7 @@ def fixed_specs(tier, ctx):
             {"cfg": {"klass": "plain"}, "ops": [{"op": "gen_cli", "params": dict(huge, seed=6, width=1, length=3500), "solve": False},
                                                 {"op": "gen_cli", "params": dict(huge, seed=7, width=130, length=2), "solve": False},
                                                 {"op": "gen_cli", "params": dict(huge, seed=8, width=3000, length=1,
-                                                                                 force_down=False), "solve": False}]}]
+                                                                                 force_down=False), "solve": False}]}] + _size_sweep(tier)
 
 
 def _manual(rng):
